@@ -23,7 +23,7 @@ structure Lawful (rnd : Rounding) where
   small_down : ∀ {q q'}, small q → q' ≤ q → small q'
   rnd_small : ∀ {q}, small q → ∃ v, rnd q = some v
   rep_succ_small : ∀ {q v}, rnd q = some v → small (v + 1)
-  nonint_small : ∀ {v}, rnd v = some v → ((v.floor : ℤ) : ℚ) ≠ v → small (12 * v + 16)
+  nonint_small : ∀ {v}, rnd v = some v → ((v.floor : ℤ) : ℚ) ≠ v → small (12 * v + 32)
   idem : ∀ {q v}, rnd q = some v → rnd v = some v
   rep_frac : ∀ {v}, 0 ≤ v → rnd v = some v → rnd (v - ((v.floor : ℤ) : ℚ)) = some (v - ((v.floor : ℤ) : ℚ))
   rel : ∀ {q v}, 0 < q → rnd q = some v → |v - q| ≤ max (q * u) d
@@ -166,7 +166,7 @@ def lawful64 : Lawful rnd64 where
       linarith
   nonint_small := by
     intro v h hni
-    show 12 * v + 16 < pow2 1024 - pow2 970
+    show 12 * v + 32 < pow2 1024 - pow2 970
     have hv0 : 0 ≤ v := by
       by_contra hc
       unfold rnd64 at h
@@ -202,9 +202,9 @@ def lawful64 : Lawful rnd64 where
       have : (1024 : ℤ) = 1023 + 1 := by norm_num
       rw [this, pow2_succ]
     have h4 : pow2 970 < pow2 1023 := pow2_lt (by norm_num)
-    have h52' : (16 : ℚ) ≤ pow2 52 := by
-      have : pow2 4 ≤ pow2 52 := pow2_mono (by norm_num)
-      have h4 : pow2 4 = 16 := by rw [pow2_eq]; norm_num
+    have h52' : (32 : ℚ) ≤ pow2 52 := by
+      have : pow2 5 ≤ pow2 52 := pow2_mono (by norm_num)
+      have h4 : pow2 5 = 32 := by rw [pow2_eq]; norm_num
       linarith
     linarith
   idem := by
